@@ -73,6 +73,13 @@ Q_PUSH = "acts::scheduler::runtime::Runtime::push"
 Q_SCHED = "acts::scheduler::context::Context::sched_task"
 Q_ERR = "acts::scheduler::process::task::Task::err"
 Q_EXEC = "acts::scheduler::process::task::Task::exec"
+Q_RUN_HOOKS_BY = "acts::scheduler::process::task::Task::run_hooks_by"
+Q_HOOK_RUN = "acts::scheduler::process::task::hook::StatementBatch::run"
+# which kinds of hook statements can be stored under a lifecycle key (hook-registration discipline,
+# checked by rules/common.py: add_hook_catch only under ErrorCatch, add_hook_timeout only under Timeout,
+# add_hook_stmts under neither)
+LIFE_KINDS = {"ErrorCatch": {"Catch"}, "Timeout": {"Timeout"}}
+LIFE_DEFAULT = {"Statement"}
 Q_ON_TASK = "acts::scheduler::scheduler::Scheduler::on_task"
 Q_EMIT_PROC = "acts::scheduler::scheduler::Scheduler::emit_proc_event"
 # calls that cannot change the state of a task of *this* process synchronously although the call
@@ -291,12 +298,13 @@ class Summaries:
 
 
 class Frame:
-    __slots__ = ("fn", "tp", "cp", "tup", "cup", "retblk", "callblk", "saved", "key")
+    __slots__ = ("fn", "tp", "cp", "tup", "cup", "retblk", "callblk", "saved", "key", "life")
 
-    def __init__(self, fn, tp, cp, tup=frozenset(), cup=frozenset(), retblk=None, callblk=None, saved=None):
+    def __init__(self, fn, tp, cp, tup=frozenset(), cup=frozenset(), retblk=None, callblk=None, saved=None, life=None):
         self.fn, self.tp, self.cp, self.tup, self.cup = fn, frozenset(tp), frozenset(cp), frozenset(tup), frozenset(cup)
         self.retblk, self.callblk, self.saved = retblk, callblk, saved
-        self.key = (fn.q, self.tp, self.cp, self.tup, self.cup, retblk, callblk, saved)
+        self.life = life  # the lifecycle key under which hook statements are being run (inherited by callees)
+        self.key = (fn.q, self.tp, self.cp, self.tup, self.cup, retblk, callblk, saved, life)
 
 
 class Monitor:
@@ -579,6 +587,18 @@ class TS:
                                 tgt = tb
                         push(tgt, env=env)
                         return
+        # hook statements: the kinds that can be stored under the lifecycle key being run
+        if fn.q == Q_HOOK_RUN and fr.life is not None and r[0] == "discr" and r[1][0] == "param" and r[1][1] == 1 and not r[1][3] \
+                and r[2] and r[2].endswith("StatementBatch"):
+            allowed = LIFE_KINDS.get(fr.life, LIFE_DEFAULT)
+            byd = {str(d): n for n, d in self.m.variants(r[2])}
+            done = set()
+            for v, tb in cases:
+                names = {byd[v]} if v in byd else {n for n, d in self.m.variants(r[2]) if str(d) not in {x for x, _ in cases}}
+                if names & allowed and tb not in done:
+                    done.add(tb)
+                    push(tb, env=env)
+            return
         # undecided: all distinct targets
         done = set()
         branch_adt = None
@@ -789,7 +809,11 @@ class TS:
                         continue  # recursion: handled by havoc below
                     inlined = True
                     self.stats["inlined"].add(tq)
-                    fr2 = Frame(cf, tp, cp, retblk=nxt, callblk=b, saved=tuple(sorted(env2.items(), key=repr)))
+                    life = fr.life
+                    if tq == Q_RUN_HOOKS_BY and len(args) >= 2:
+                        kr = self.pa.root(fn, args[1])
+                        life = kr[2] if (kr[0] == "agg" and kr[1].endswith("TaskLifeCycle")) else None
+                    fr2 = Frame(cf, tp, cp, retblk=nxt, callblk=b, saved=tuple(sorted(env2.items(), key=repr)), life=life)
                     push(0, s=s2, cok=cok2, mon=mon2, env={}, frames=frames + (fr2,), ev=ev)
                 if inlined and len([tq for tq in targets if tq in self.events_of_interest]) == len(targets):
                     return
@@ -818,7 +842,7 @@ class TS:
         # ---- emit_task_event runs the on_task handler synchronously --------------------------------
         if q == Q_EMIT_EVENT and ev is not None and ev[0] == "EMIT_EVENT" and depth < self.maxdepth + 3:
             if not any(f.fn.q == self.on_task.q for f in frames):
-                fr2 = Frame(self.on_task, (2,), (), retblk=nxt, callblk=b, saved=tuple(sorted(env2.items(), key=repr)))
+                fr2 = Frame(self.on_task, (2,), (), retblk=nxt, callblk=b, saved=tuple(sorted(env2.items(), key=repr)), life=None)
                 push(0, s=s2, cok=cok2, mon=mon2, env={}, frames=frames + (fr2,), ev=ev)
                 return
         # ---- not inlined: havoc if it may write some task's state ------------------------------
@@ -883,7 +907,7 @@ class TS:
                 tup.add(name)
             elif self.ctx_tracked(fr, op, env):
                 cup.add(name)
-        return Frame(cf, (), (), tup, cup, retblk=nxt, callblk=b, saved=tuple(sorted(env2.items(), key=repr)))
+        return Frame(cf, (), (), tup, cup, retblk=nxt, callblk=b, saved=tuple(sorted(env2.items(), key=repr)), life=fr.life)
 
     def _promoted_state(self, fn, idx):
         try:
